@@ -79,7 +79,8 @@ AtomST(e) ==
                  THEN MGET([i \in 1..Len(e.a[2].a) |-> e.a[2].a[i].s]) ELSE FULL
             [] e.op = "between" ->
                  IF e.a[1].k = "key" /\ e.a[2].k = "list" /\ Len(e.a[2].a) = 2 /\ AllStr(e.a[2].a)
-                 THEN RANGE(e.a[2].a[1].s, e.a[2].a[2].s) ELSE FULL
+                 THEN (IF LexLess(e.a[2].a[2].s, e.a[2].a[1].s) THEN FULL          \* reversed bounds never narrow the scan
+                       ELSE RANGE(e.a[2].a[1].s, e.a[2].a[2].s)) ELSE FULL
             [] OTHER -> FULL
 
 (* inRange(start, end, val, isEnd) *)
